@@ -9,6 +9,24 @@ EXEC_NOTE = ("Trusted: TLC; CPython's ast; the syntactic text->HF-IR converter (
 CHECKS = {
     "C01": ("HFMachine.tla run by TLC on every emitted program x bounded inputs, judged against EinsumSem.tla (OutputCorrect, OutputRestored, no run-time error); "
             "specifications: 19 golden + fixed core + seeded family of plain Einsums with loop/rank orders", "5 C01", EXEC_NOTE),
+    "C02": ("same machine; shape-partitioning family (1-3 levels, uniform/nway, literal/symbolic, non-dividing and oversized sizes, arbitrary level loop orders); "
+            "output must equal the unpartitioned Einsum's oracle under its declared name, rank order and coordinates", "5 C02", EXEC_NOTE),
+    "C03": ("same machine; occupancy stacks with every leader, flatten tuples (+ occupancy of the flattened rank), accelerator specifications with the architecture stripped; "
+            "nearly dense inputs included; splitNonUniform's unspecified case is a variant", "5 C03", EXEC_NOTE),
+    "C04": ("same machine over exact rationals; affine accesses (convolution/stride/dilation/subsampling) x loop orders x partitioned output rank with follower; "
+            "clauses OutputCorrect and WithinExtent", "5 C04", EXEC_NOTE),
+    "C05": ("same machine on cascades of 2-4 Einsums against the chained oracle (EinsumSem!Cascade) with NamesTruthful; per-Einsum segment independence and the shared-tensor protocol are "
+            "trace-validated (SessionTrace / TensorIRTrace) once the hook exists", "5 C05", EXEC_NOTE),
+    "C06": ("CPython's parser for 'is Python' + Scope.tla: all-paths definite assignment and loop-variable scoping explored exhaustively by TLC for every emitted program of all families "
+            "in plain, spacetime and metrics mode; user-supplied names derived from the specification alone", "3.5, 5 C06",
+            "Trusted: TLC, CPython ast, the syntactic converter; loops abstracted to zero/one iteration (binding is monotone)."),
+    "C07": ("HFMachine invariants NamesTruthful, InputsUnchanged, OutputRestored and the 'update writes into an input' guard on the union of the C01-C05 families", "5 C07", EXEC_NOTE),
+    "C11": ("every specification compiled with and without architecture/bindings/format; both programs run on HFMachine (inert Metrics/Traffic/Format/Compute/Intersector stand-ins) on the same inputs and must equal the oracle", "5 C11", EXEC_NOTE),
+    "C12": ("MetricsProtocol.tla monitor advanced by HFMachine (concrete runs) and by Scope.tla (every path) over metrics-mode programs", "3.6, 5 C12",
+            "Trusted: TLC, the converter; the monitor reads only literal arguments of the emitted calls. 'Fed inside the loops' is read as: fed during collection, not before the loop nest starts (the compiler feeds at the close of the intersected rank's loop)."),
+    "C14": ("RollUp.tla evaluated on the metrics dictionary built by the emitted dump on HFMachine with prime-valued stand-ins varying per statement and input; component facts (kind, rate, instances) from an independent reader of the architecture YAML", "3.6, 5 C14",
+            EXEC_NOTE + " Instance count = the count of the level that holds the component."),
+    "C16": ("HFMachine observers (activities vs updates in lock-step, point arity, stamps unique per canvas) + oracle equality of the programs with and without spacetime", "5 C16", EXEC_NOTE),
 }
 PENDING = {}
 
